@@ -500,8 +500,10 @@ func (c *Ctx) runScript(ops []Op) []Outcome {
 		outs[i] = out
 		if op.has("repeat-prev") && i > 0 && sameCall(&ops[i-1], op) && ob != nil && !ob.dead {
 			// the same call on the same object with the same arguments, into a
-			// fresh solution variable: an execute does not change what the
-			// object was given, so the answer must be the same
+			// fresh solution variable, into the variable that holds the previous
+			// answer, or into one filled with junk: an execute does not change
+			// what the object was given and replaces what the solution held,
+			// so the answer must be the same
 			c.st.Judged["repeat/same-object-repeat/"+op.K]++
 			if !budgetEdge(&outs[i], &outs[i-1], c.budget) && !sameOutcome(&outs[i], &outs[i-1]) {
 				c.viol = append(c.viol, Violation{Class: "repeat", Task: c.task, OpIndex: i, OpKind: op.K, Pert: "same-object-repeat",
@@ -522,7 +524,7 @@ func (c *Ctx) runScript(ops []Op) []Outcome {
 // arguments (the minimiser may have removed the original of a repeat: the
 // check then simply does not apply).
 func sameCall(a, b *Op) bool {
-	if a.K != b.K || a.O != b.O || len(a.I) != len(b.I) || len(a.F) != len(b.F) || len(a.A) != len(b.A) {
+	if a.K != b.K || a.O != b.O || a.N != b.N || len(a.I) != len(b.I) || len(a.F) != len(b.F) || len(a.A) != len(b.A) {
 		return false
 	}
 	for i := range a.I {
